@@ -4,6 +4,8 @@ import RQ.Props.C07
 import RQ.Spec.Abs
 import RQ.Lemmas.ParLemmas
 import RQ.Lemmas.ParSave
+import RQ.Model.ParPush
+import RQ.Lemmas.ParPushDisk
 /-!
 # C06 — parallel push equals single-threaded push under every thread schedule
 
@@ -30,6 +32,13 @@ Three parts.
    that of the sequential composition of the per-worker model save functions (up to inode numbers).
    What remains *modelled, not verified*: the kernel semantics of the single operations (`RQ/Model/FS.lean`)
    and their atomicity; that is exercised by the forced-schedule runs.
+4. **All together** (`C06_parallel_eq_sequential_tree`): the assembled model `parApplyPatches`
+   (`RQ/Model/ParPush.lean`: parse everything, distribute, apply phase under a schedule, rollbacks, save
+   phase under a second schedule, cleaning and reject files by the main thread) against the model of the
+   sequential driver `applyPatches`, for a range that parses: under every pair of schedules both stop at
+   the same patch, an error while applying is an error of both, and the two disks hold the same file under
+   every name that is neither a reject file nor below `.pc` (stages: `RQ/Lemmas/ParPush.lean` — apply phase
+   = sequential application by projection onto each worker's names —, `RQ/Lemmas/ParPushDisk.lean`).
 The tie to the code is the scheduler hook: the real parallel driver is run under forced random schedules
 (baton at every point where a worker touches the shared index or the file system) and must produce the
 tree, `.pc`, rejects and exit status of the single-threaded specification.
@@ -37,15 +46,9 @@ tree, `.pc`, rejects and exit status of the single-threaded specification.
 namespace RQ.Par
 open RQ RQ.Push RQ.Parse
 
-/-- the table of queues as the scheduler model wants it -/
-def toEntries (q : List QEntry) : List Entry := q.zipIdx.map (fun (e, i) => { idx := e.idx, tag := i })
-
-/-- the worker's application function on scheduler entries: the state carries the worker's id, the entry's
-tag is its position in that worker's queue -/
-def apSched (fs : FS) (cfg : Cfg) (queues : Nat → List QEntry) (s : Nat × WSt) (e : Entry) : (Nat × WSt) × Bool :=
-  match (queues s.1)[e.tag]? with
-  | some qe => let r := apW fs cfg s.2 qe; ((s.1, r.1), r.2)
-  | none => (s, false)
+/- `toEntries` (the table of queues as the scheduler model wants it) and `apSched` (the worker's application
+function on scheduler entries) are defined in `RQ/Model/ParPush.lean`, where the assembled model
+`parApplyPatches` uses them. -/
 
 /-- **C06 (apply phase)**: for every file system, configuration, set of queues (sorted by patch index, as
 the distribution produces them) and EVERY schedule `sched` (any list of worker ids): once all workers
@@ -388,6 +391,272 @@ example : ¬ KeysApart [[[97]]] (saveKeys cfg 1 1 mems applieds 0) := by decide
 
 end SaveEx
 
+/-! ## All together: the parallel driver against the sequential driver -/
+
+/-- **C06 (apply phase = sequential application, every schedule).**  `parMemory` is the parallel driver up
+to the point where files are written: distribution, apply phase under the schedule `schedA`, the rule
+which errors count, the workers' rollbacks and rendering of reject files.  For a range that parses and
+every `schedA` under which all workers get done (`parMemory … = some r`):
+* it returns an error exactly when the sequential `applyLoop` does;
+* if `applyLoop` stops at `k` with the reject files `rejs` (then `Abs.applyRange` does, with a tree `t`):
+  the parallel push stops at `k`; in a real run every worker's cache, after its rollbacks, shows under
+  every name of a file patch of its queue the file `t` has under that name; and the workers' reject files
+  together are a permutation of `rejs`, each worker's list being a sub-list of `rejs` in the same order. -/
+theorem C06_apply_eq_sequential (fs : FS) (cfg : Cfg) (range : List Series.Entry) (threads : Nat)
+    (patches : List (Series.Entry × List PFilePatch)) (hparse : parseRange fs cfg range = some patches)
+    (ht : 0 < threads) (schedA : List Nat) (r : Except Fail ParResult)
+    (hr : parMemory fs cfg patches threads schedA = some r) :
+    (∀ e, applyLoop fs cfg range 0 {} = .error e → ∃ x, r = .error x) ∧
+    (∀ x, r = .error x → ∃ e, applyLoop fs cfg range 0 {} = .error e) ∧
+    (∀ st k rejs, applyLoop fs cfg range 0 {} = .ok (st, k, rejs) →
+      ∃ t pr, r = .ok pr ∧ Abs.applyRange fs cfg range 0 [] = .ok (t, k, rejs) ∧ pr.final = k ∧
+        (cfg.dryRun = false →
+          (∀ i n, (∃ q ∈ queuesOf patches threads i, components n ∈ fpNames q.fp) →
+            Abs.look (Abs.ofMem (pr.sts i).mem) fs n = Abs.look t fs n) ∧
+          ((List.range threads).flatMap pr.rejs).Perm rejs ∧
+          ∀ i, i < threads → (pr.rejs i).Sublist rejs)) := by
+  refine ⟨fun e he => parMemory_applyLoop_err hparse ht he schedA r hr, fun x hx => ?_, fun st k rejs hloop => ?_⟩
+  · subst hx
+    exact applyLoop_err_of_parMemory hparse ht schedA hr
+  · obtain ⟨t, outsK, pr, e1, hspec, pm, hc, hrejs⟩ := parMemory_applyLoop_ok hparse ht hloop schedA r hr
+    refine ⟨t, pr, e1, hspec, pm.final, fun hdry => ?_⟩
+    have hrj : rejs = outRejs outsK := by rw [hrejs]; simp [hdry]
+    refine ⟨fun i n hn => pm.look hdry i n (namesOf_iff_queue.mpr hn), ?_, fun i hi => ?_⟩
+    · rw [hrj]
+      exact rejs_perm (parsed_of_parseRange hparse) ht hc pm hdry
+    · rw [hrj, pm.rejs hdry i hi]
+      exact outRejs_sublist _ _
+
+/-- **C06 (parallel push = single-threaded push, every pair of thread schedules).**
+
+`parApplyPatches w cfg range threads schedA schedS` is the model of `parallel::apply_patches`: `schedA`
+interleaves the workers' apply phase, `schedS` their save phase (at the granularity of single
+file-system operations); it is `none` only when a schedule is too short for all workers to finish.
+For a range all of whose patches parse (otherwise the parallel driver refuses up front), at least one
+thread, no fault injection, and EVERY `schedA`, `schedS` for which the result `res` exists:
+
+1. if the sequential driver runs into an error while applying (`applyLoop`), so does the parallel one, and
+   neither has written anything; conversely an error of the in-memory part of the parallel driver (a
+   worker's error that counts — rollbacks cannot fail) means the sequential driver returns an error;
+2. if the sequential driver stops at patch `k` without error, the in-memory part of the parallel driver
+   succeeds and stops at `k` (which worker ran how far ahead does not matter); a dry run returns `(w, k)`
+   like the sequential driver; in a real run — assuming, as in `C06_save_phase`, that each worker's save
+   succeeds alone and the workers' keys are prefix-free — the save phase succeeds under `schedS`, `res` is
+   the result of the main thread's last steps (`mainFinish`: cleaning directories, writing reject files),
+   and if both drivers succeed they report the same `k` and the two disks hold the same file (content and
+   permission bits) at the path of every name that has no `.` component, is not a reject file and not
+   below `.pc`. -/
+theorem C06_parallel_eq_sequential_tree (w : World) (cfg : Cfg) (range : List Series.Entry) (threads : Nat)
+    (schedA schedS : List Nat) (ht : 0 < threads) (hf : w.faultAt = none)
+    (patches : List (Series.Entry × List PFilePatch)) (hparse : parseRange w.fs cfg range = some patches)
+    (res : WR (World × Nat)) (hres : parApplyPatches w cfg range threads schedA schedS = some res) :
+    (∀ e, applyLoop w.fs cfg range 0 {} = .error e →
+        applyPatches w cfg range = .error (e, w) ∧ ∃ e', res = .error (e', w)) ∧
+    (∀ x, parMemory w.fs cfg patches threads schedA = some (.error x) →
+        res = .error (x, w) ∧ ∃ e, applyPatches w cfg range = .error (e, w)) ∧
+    (∀ st k rejs, applyLoop w.fs cfg range 0 {} = .ok (st, k, rejs) →
+      ∃ pr, parMemory w.fs cfg patches threads schedA = some (.ok pr) ∧ pr.final = k ∧
+      (cfg.dryRun = true → res = .ok (w, k) ∧ applyPatches w cfg range = .ok (w, k)) ∧
+      (cfg.dryRun = false →
+        (∀ i, i < threads → ∃ r,
+          workerSave cfg k patches.length ⟨w.fs, [], none⟩ (pr.sts i).mem (pr.sts i).applied = .ok r) →
+        KeysDisjoint (saveKeys cfg k patches.length (fun i => (pr.sts i).mem) (fun i => (pr.sts i).applied)) threads →
+        ∃ w1 dirs,
+          savePhase w cfg k patches.length threads (fun i => (pr.sts i).mem) (fun i => (pr.sts i).applied) schedS
+            = some (.ok (w1, dirs)) ∧
+          res = mainFinish w1 dirs pr.rejs threads k ∧
+          ∀ w' k', res = .ok (w', k') → k' = k ∧
+            ∀ w'' k'', applyPatches w cfg range = .ok (w'', k'') → k'' = k ∧
+              ∀ name key, Comp.cur ∉ components name → safeKey name = some key →
+                ¬ Flush.isRejKey rejs key → ¬ Flush.isPcKey key →
+                Flush.fileAt w'.fs key = Flush.fileAt w''.fs key)) := by
+  have heq := parApplyPatches_eq w cfg range threads schedA schedS ht hparse
+  rw [hres] at heq
+  cases hm : parMemory w.fs cfg patches threads schedA with
+  | none => rw [hm] at heq; cases heq
+  | some r =>
+    rw [hm] at heq
+    refine ⟨fun e he => ?_, fun x hx => ?_, fun st k rejs hloop => ?_⟩
+    · refine ⟨by unfold applyPatches; rw [he], ?_⟩
+      obtain ⟨x', hx'⟩ := parMemory_applyLoop_err hparse ht he schedA r hm
+      subst hx'
+      simp only [Option.some.injEq] at heq
+      exact ⟨x', heq⟩
+    · cases hx
+      simp only [Option.some.injEq] at heq
+      refine ⟨heq, ?_⟩
+      obtain ⟨e, he⟩ := applyLoop_err_of_parMemory hparse ht schedA hm
+      exact ⟨e, by unfold applyPatches; rw [he]⟩
+    · obtain ⟨t, outsK, pr, hr, hspec, pm, hc, hrejs⟩ := parMemory_applyLoop_ok hparse ht hloop schedA r hm
+      subst hr
+      refine ⟨pr, rfl, pm.final, fun hdry => ?_, fun hdry hsolo hdisj => ?_⟩
+      · simp only [hdry, if_true, Option.some.injEq] at heq
+        refine ⟨by rw [heq, pm.final], ?_⟩
+        unfold applyPatches
+        rw [hloop]
+        simp only [hdry, if_true]
+      · have hsolo' : ∀ pr', parMemory w.fs cfg patches threads schedA = some (.ok pr') → ∀ i, i < threads →
+            ∃ r, workerSave cfg pr'.final patches.length ⟨w.fs, [], none⟩ (pr'.sts i).mem (pr'.sts i).applied = .ok r := by
+          intro pr' hpr'
+          rw [hm] at hpr'
+          cases hpr'
+          rw [pm.final]
+          exact hsolo
+        have hdisj' : ∀ pr', parMemory w.fs cfg patches threads schedA = some (.ok pr') →
+            KeysDisjoint (saveKeys cfg pr'.final patches.length (fun i => (pr'.sts i).mem)
+              (fun i => (pr'.sts i).applied)) threads := by
+          intro pr' hpr'
+          rw [hm] at hpr'
+          cases hpr'
+          rw [pm.final]
+          exact hdisj
+        obtain ⟨pr', w1, dirs, hpr', _, hsv, hresEq, hall⟩ := parApply_disk w cfg range threads schedA schedS ht hf hdry
+          hparse hspec hsolo' hdisj' res hres
+        rw [hm] at hpr'
+        cases hpr'
+        refine ⟨w1, dirs, hsv, hresEq, fun w' k' hok => ?_⟩
+        obtain ⟨hk', _, hview, _, hkeep⟩ := hall w' k' hok
+        refine ⟨hk', fun w'' k'' hseq => ?_⟩
+        obtain ⟨t', rejs', hspec', hseqv⟩ := seq_disk w w'' cfg range k'' hf hdry hseq
+        rw [hspec] at hspec'
+        cases hspec'
+        refine ⟨rfl, fun name key hcur hkey hnr hnp => ?_⟩
+        rw [hseqv name key hcur hkey hnr hnp]
+        cases hl : Abs.look t w.fs name with
+        | ok a => exact hview name key a hcur hkey hnr hnp hl
+        | error u => exact hkeep name key u hcur hkey hnr hnp hl
+
+/-! ### A concrete instance: two workers, two patches, the first one failing, a worker running ahead
+
+Working directory: `a` = "x\n", `b` = "y\n"; `patches/p1` wants to change `z` into `Z` in `b` (fails),
+`patches/p2` changes `x` into `X` in `a`.  With two threads `b` belongs to worker 0 and `a` to worker 1.
+Under the apply schedule `[1, 0, 1, 0]` worker 1 applies `p2` (patch index 1) before worker 0 has published
+the failure of `p1` (index 0): it has run ahead and must roll `a` back.  The save schedule interleaves the
+two workers' four operations each. -/
+namespace ParEx
+
+def p1Bytes : Bytes :=
+  [45, 45, 45, 32, 98, 10, 43, 43, 43, 32, 98, 10, 64, 64, 32, 45, 49, 32, 43, 49, 32, 64, 64, 10, 45, 122, 10, 43, 90, 10]
+def p2Bytes : Bytes :=
+  [45, 45, 45, 32, 97, 10, 43, 43, 43, 32, 97, 10, 64, 64, 32, 45, 49, 32, 43, 49, 32, 64, 64, 10, 45, 120, 10, 43, 88, 10]
+def pdir : Bytes := [112, 97, 116, 99, 104, 101, 115]
+
+def fs0 : FS :=
+  { nodes := [([[97]], .file [120, 10] 0o644 1), ([[98]], .file [121, 10] 0o644 2), ([pdir], .dir),
+      ([pdir, [112, 49]], .file p1Bytes 0o644 3), ([pdir, [112, 50]], .file p2Bytes 0o644 4)], nextIno := 5 }
+def w0 : World := { fs := fs0 }
+def cfg0 : Cfg := {}
+def range0 : List Series.Entry :=
+  [{ name := [112, 49], strip := 0, reverse := false }, { name := [112, 50], strip := 0, reverse := false }]
+
+def schedA : List Nat := [1, 0, 1, 0]
+def schedS : List Nat := [0, 1, 1, 0, 0, 1, 0, 1]
+
+/-- the reject file `b.rej` -/
+def bRej : Key := [[98, 46, 114, 101, 106]]
+
+/-- after the apply phase: the push stops at patch 0, and both workers have applied one file patch
+(worker 1 the one of patch 1: it ran ahead) -/
+example : (match parseRange fs0 cfg0 range0 with
+    | some ps => (match applyPhase fs0 cfg0 ps 2 schedA with
+      | some a => a.final == 0 && (a.ws 0).st.applied.length == 1 && (a.ws 1).st.applied.length == 1
+      | none => false)
+    | none => false) = true := by decide
+
+/-- the parallel push under the interleaved schedules: 0 patches applied, `a` and `b` as before, `b.rej`
+written -/
+theorem par0 : (match parApplyPatches w0 cfg0 range0 2 schedA schedS with
+    | some (.ok (w', k)) => k == 0 && Flush.fileAt w'.fs [[97]] == some ([120, 10], 0o644) &&
+        Flush.fileAt w'.fs [[98]] == some ([121, 10], 0o644) && (Flush.fileAt w'.fs bRej).isSome
+    | _ => false) = true := by decide
+
+/-- the sequential push: the same -/
+theorem seq0 : (match applyPatches w0 cfg0 range0 with
+    | .ok (w'', k) => k == 0 && Flush.fileAt w''.fs [[97]] == some ([120, 10], 0o644) &&
+        Flush.fileAt w''.fs [[98]] == some ([121, 10], 0o644) && (Flush.fileAt w''.fs bRej).isSome
+    | .error _ => false) = true := by decide
+
+/-- a schedule under which worker 1 sees the failure in time and never applies `p2`: same result -/
+example : (match parApplyPatches w0 cfg0 range0 2 [0, 0, 1] schedS with
+    | some (.ok (w', k)) => k == 0 && Flush.fileAt w'.fs [[97]] == some ([120, 10], 0o644) &&
+        Flush.fileAt w'.fs [[98]] == some ([121, 10], 0o644) && (Flush.fileAt w'.fs bRej).isSome
+    | _ => false) = true := by decide
+
+/-- the in-memory result of the parallel push under `schedA` -/
+def prOf : ParResult :=
+  match parseRange fs0 cfg0 range0 with
+  | some ps => (match parMemory fs0 cfg0 ps 2 schedA with
+    | some (.ok pr) => pr
+    | _ => { final := 0, sts := fun _ => {}, rejs := fun _ => [] })
+  | none => { final := 0, sts := fun _ => {}, rejs := fun _ => [] }
+
+/-- the hypotheses of `C06_parallel_eq_sequential_tree` hold here (each worker's save succeeds alone, the
+workers' keys are prefix-free), so the theorem applies: whatever the save schedule, if it is long enough
+and the main thread's last steps succeed, the parallel push reports `0` like the sequential one and `a`,
+`b` hold on disk what they hold after the sequential push. -/
+example (sS : List Nat) (w' : World) (k' : Nat)
+    (h : parApplyPatches w0 cfg0 range0 2 schedA sS = some (.ok (w', k'))) :
+    k' = 0 ∧ Flush.fileAt w'.fs [[97]] = some ([120, 10], 0o644) ∧
+      Flush.fileAt w'.fs [[98]] = some ([121, 10], 0o644) := by
+  have hfact : (match applyLoop w0.fs cfg0 range0 0 {} with
+      | .ok (_, k, rj) => k == 0 && rj.all (fun x => safeKey x.1 == some bRej)
+      | .error _ => false) = true := by decide
+  cases hp : parseRange fs0 cfg0 range0 with
+  | none => exact absurd hp (by decide)
+  | some ps =>
+    have hlen : ps.length = 2 := parseRange_length range0 ps hp
+    cases hl : applyLoop w0.fs cfg0 range0 0 {} with
+    | error e => rw [hl] at hfact; cases hfact
+    | ok x =>
+      obtain ⟨st, k, rejs⟩ := x
+      rw [hl] at hfact
+      simp only [Bool.and_eq_true, beq_iff_eq, List.all_eq_true] at hfact
+      obtain ⟨hk0, hrj⟩ := hfact
+      subst hk0
+      obtain ⟨_, _, h3⟩ := C06_parallel_eq_sequential_tree w0 cfg0 range0 2 schedA sS (by decide) rfl ps hp _ h
+      obtain ⟨pr, hm, _, _, hreal⟩ := h3 st 0 rejs hl
+      have hpr : pr = prOf := by
+        unfold prOf
+        simp only [hp]
+        have hm' : parMemory fs0 cfg0 ps 2 schedA = some (.ok pr) := hm
+        rw [hm']
+      have hs := seq0
+      cases hseq : applyPatches w0 cfg0 range0 with
+      | error e => rw [hseq] at hs; cases hs
+      | ok y =>
+        obtain ⟨w'', k''⟩ := y
+        rw [hseq] at hs
+        simp only [Bool.and_eq_true, beq_iff_eq] at hs
+        obtain ⟨⟨⟨_, ha⟩, hb⟩, _⟩ := hs
+        obtain ⟨w1, dirs, _, _, hfin⟩ := hreal rfl
+          (by
+            rw [hpr, hlen]
+            intro i hi
+            apply SaveEx.exists_ok_of_isOk
+            match i, hi with
+            | 0, _ => decide
+            | 1, _ => decide)
+          (by rw [hpr, hlen]; decide)
+        obtain ⟨hk', hagree⟩ := hfin w' k' rfl
+        obtain ⟨_, hfiles⟩ := hagree w'' k'' hseq
+        have hnr : ∀ key, key ≠ bRej → ¬ Flush.isRejKey rejs key := by
+          intro key hkey ⟨x, hx, hxk⟩
+          rw [hrj x hx] at hxk
+          injection hxk with hxk
+          exact hkey hxk.symm
+        refine ⟨hk', ?_, ?_⟩
+        · rw [hfiles [97] [[97]] (by decide) (by decide) (hnr _ (by decide)) (by unfold Flush.isPcKey; decide)]
+          exact ha
+        · rw [hfiles [98] [[98]] (by decide) (by decide) (hnr _ (by decide)) (by unfold Flush.isPcKey; decide)]
+          exact hb
+
+/-- a schedule that is too short: no result -/
+example : parApplyPatches w0 cfg0 range0 2 [1, 0] schedS = none := by decide
+
+end ParEx
+
+#print axioms C06_apply_eq_sequential
+#print axioms C06_parallel_eq_sequential_tree
 #print axioms C06_apply_phase
 #print axioms C06_error_index
 #print axioms C06_save_phase
